@@ -37,7 +37,7 @@ func (c08) Batches(tier string, seed uint64) []core.Batch {
 
 func (c08) Mandatory(tier string) []string {
 	return []string{"shape:single", "shape:multi", "shape:interior-empty", "shape:empty-run>=2", "shape:indented", "shape:trailing-empty-line", "shape:trailing-NL", "shape:no-trailing-NL",
-		"shape:empty-value", "shape:hash-line", "cycle:documents", "cycle:with-continuations", "encoder:one-by-one", "encoder:slice", "encoder:mixed-call-sequence", "encoder:n>=2", "shape:line>=4096-bytes"}
+		"shape:empty-value", "shape:hash-line", "cycle:documents", "cycle:with-continuations", "encoder:one-by-one", "encoder:slice", "encoder:mixed-call-sequence", "encoder:empty-struct-in-sequence", "encoder:n>=2", "shape:line>=4096-bytes"}
 }
 
 type c08Field struct {
@@ -301,8 +301,16 @@ func (p c08) encoderMixed(c *core.C, items []encS, cuts []int) {
 		c.Failf("Encode call sequence %s: output rejected by the reader: %v\noutput: %q", desc, err, buf.String())
 		return
 	}
-	if len(got) != len(items) {
-		c.Failf("Encode call sequence %s: %d structs written, %d paragraphs read back\noutput: %q", desc, len(items), len(got), buf.String())
+	nonEmpty := 0
+	for _, it := range items {
+		if it != (encS{}) {
+			nonEmpty++
+		} else {
+			c.Cover("encoder:empty-struct-in-sequence")
+		}
+	}
+	if len(got) != nonEmpty {
+		c.Failf("Encode call sequence %s: %d non-empty structs written, %d paragraphs read back\noutput: %q", desc, nonEmpty, len(got), buf.String())
 	}
 	c.Cover("encoder:mixed-call-sequence")
 }
@@ -312,6 +320,11 @@ func (p c08) encoderCase(c *core.C, items []encS) {
 	for k := 0; k < 3; k++ {
 		cuts := []int{cr.Range(0, 3), cr.Range(1, 3), cr.Range(0, 2), 1, cr.Range(1, 3)}
 		p.encoderMixed(c, items, cuts)
+	}
+	if len(items) >= 2 { // a struct whose fields are all omitted, between two others
+		withEmpty := append(append(append([]encS{}, items[:1]...), encS{}), items[1:]...)
+		p.encoderMixed(c, withEmpty, []int{1, 1, 1, 2})
+		p.encoderMixed(c, withEmpty, []int{3, 1})
 	}
 	for _, mode := range []string{"one-by-one", "slice"} {
 		var buf bytes.Buffer
